@@ -380,6 +380,9 @@ func runC15(c *Ctx, si interface{}) {
 		ts := TapeSpec{Mode: "choice", Seed: mix(s.Seed, "call", i), Default: "random"}
 		res := doCall(op.Op, NewTape(ts), e.char, e.wl, e.ptr)
 		c.T(res.brief(), res.Out.String())
+		if op.Op == "gen" && e.char != nil && res.Kind == "ok" && len(res.Tape.CharLists) == 0 {
+			panic(sentCannotDrive) // hook H2 not reached: index order not owned
+		}
 		for j, l := range live {
 			if d := before[j].diff(l.snapshot()); d != "" {
 				c.Violate("mutation", "", "history [%s]: call %d %s on entry %d modified entry %d: %s", hist, i, op.Op, op.T, j, d)
